@@ -430,3 +430,82 @@ Proof.
   intros H160 s d H20. unfold subscribe, unsubscribe. cbn [map fold_left].
   rewrite push_key_idem by exact H20. split; reflexivity.
 Qed.
+
+(* ---------------------------------------------------------------------------------------- *)
+(* the C08 monitor never objects to the model *)
+Lemma zlist_eqb_refl' l : zlist_eqb l l = true.
+Proof. induction l as [|x l IH]; cbn; [reflexivity|]. rewrite Z.eqb_refl. exact IH. Qed.
+Lemma count_pos_subscribed k l : (0 <? count_k k l) = existsb (fun x => bytes_eqb x k) l.
+Proof.
+  unfold count_k. induction l as [|x l IH]; [reflexivity|]. cbn [existsb]. rewrite filter_cons.
+  destruct (bytes_eqb x k) eqn:E.
+  - destruct (decide (true = true)) as [_|n]; [|destruct n; reflexivity]. cbn [orb].
+    apply Z.ltb_lt. unfold zlen. cbn [length]. lia.
+  - destruct (decide (false = true)) as [e|_]; [discriminate e|]. cbn [orb]. exact IH.
+Qed.
+
+Lemma spec_relevant_is_relevant H is_c s outs ins :
+  spec_relevant H is_c s outs ins = is_relevant H is_c s outs ins.
+Proof.
+  unfold spec_relevant, is_relevant. rewrite existsb_app, orb_assoc. f_equal; [f_equal|];
+    apply existsb_ext'; intros sc; unfold script_matches; apply existsb_ext'; intros p;
+    unfold subscribed; apply count_pos_subscribed.
+Qed.
+
+Lemma mset_eqb_refl l : mset_eqb l l = true.
+Proof. unfold mset_eqb. apply forallb_forall. intros k _. apply Z.eqb_refl. Qed.
+
+Lemma chunk_concat (l : list bytes) : Forall (fun k => length k = 20%nat) l ->
+  forall fuel, (length (concat l) < fuel)%nat -> chunk fuel 20 (concat l) = l.
+Proof.
+  induction 1 as [|k l Hk Hl IH]; intros fuel Hf.
+  - destruct fuel; reflexivity.
+  - destruct fuel as [|fuel]; [lia|]. cbn [concat] in *.
+    assert (Hlen : (length (concat l) < fuel)%nat) by (rewrite app_length in Hf; lia).
+    cbn [chunk]. destruct (k ++ concat l) eqn:E.
+    + destruct k; [discriminate Hk|discriminate E].
+    + rewrite <- E. rewrite take_app_alt by (symmetry; exact Hk). rewrite drop_app_alt by (symmetry; exact Hk).
+      f_equal. apply IH. exact Hlen.
+Qed.
+
+Definition all20 (s : fstate) : Prop := Forall (fun k => length k = 20%nat) (subs s).
+
+Lemma remove_first_all20 k l : Forall (fun k => length k = 20%nat) l -> Forall (fun k => length k = 20%nat) (remove_first k l).
+Proof.
+  induction 1 as [|x l Hx Hl IH]; cbn; [constructor|]. destruct (bytes_eqb x k); [exact Hl|constructor; assumption].
+Qed.
+
+Lemma step08_sim htbl ctbl s o :
+  all20 s -> keys20 htbl [o] = true ->
+  step08 htbl ctbl s o (snd (step htbl ctbl s o)) = (0, fst (step htbl ctbl s o)) /\ all20 (fst (step htbl ctbl s o)).
+Proof.
+  intros H20 Hk. destruct o as [ds|ds| | |outs ins|d|]; cbn [step step08 fst snd].
+  - split; [reflexivity|]. unfold all20, subscribe. cbn [subs]. apply Forall_app. split; [exact H20|].
+    cbn in Hk. rewrite andb_true_r in Hk. rewrite forallb_forall in Hk.
+    apply Forall_forall. intros k Hin. apply elem_of_list_In, in_map_iff in Hin. destruct Hin as (d & <- & Hd).
+    apply Nat.eqb_eq, Hk, Hd.
+  - split; [reflexivity|]. unfold all20, unsubscribe. cbn [subs].
+    clear Hk. unfold all20 in H20. revert H20. generalize (subs s). induction ds as [|d ds IH]; intros l Hl; cbn [fold_left]; [exact Hl|].
+    apply IH, remove_first_all20, Hl.
+  - split; [reflexivity|exact H20].
+  - split; [reflexivity|exact H20].
+  - split; [|exact H20]. rewrite spec_relevant_is_relevant, zlist_eqb_refl'. reflexivity.
+  - split; [reflexivity|exact H20].
+  - split; [|exact H20]. rewrite Z.eqb_refl. cbn [andb].
+    rewrite chunk_concat; [rewrite mset_eqb_refl; reflexivity|exact H20|lia].
+Qed.
+
+Lemma mon08_silent htbl ctbl : forall ops s i,
+  all20 s -> keys20 htbl ops = true -> mon08_from htbl ctbl s i ops (run_from htbl ctbl s ops) = None.
+Proof.
+  induction ops as [|o ops IH]; intros s i H20 Hk; [reflexivity|].
+  cbn [run_from]. destruct (step htbl ctbl s o) as [s1 ob] eqn:Hs. cbn [mon08_from].
+  cbn [keys20 forallb] in Hk. apply andb_true_iff in Hk. destruct Hk as [Hk1 Hk2].
+  destruct (step08_sim htbl ctbl s o H20) as [Hm H20'].
+  { cbn [keys20 forallb]. rewrite Hk1. reflexivity. }
+  rewrite Hs in Hm, H20'. cbn [fst snd] in Hm, H20'. rewrite Hm. cbn. apply IH; assumption.
+Qed.
+
+Lemma c08_monitor_silent : forall htbl ctbl ops,
+  keys20 htbl ops = true -> c08_monitor htbl ctbl ops (run htbl ctbl ops) = None.
+Proof. intros. unfold c08_monitor, run. apply mon08_silent; [constructor|assumption]. Qed.
